@@ -159,9 +159,23 @@ func (pt *PolyformTexture) equal(other *PolyformTexture) bool {
 		return false
 	}
 
+	// texture-info extensions (e.g. KHR_texture_transform) end up on the material's texture reference
+	if len(pt.Extensions) != len(other.Extensions) {
+		return false
+	}
+	for i, ext := range pt.Extensions {
+		if ext != other.Extensions[i] {
+			return false
+		}
+	}
+
 	if pt.Sampler == other.Sampler {
 		return true
 	} else if pt.Sampler == nil || other.Sampler == nil {
+		return false
+	}
+
+	if pt.Sampler.Name != other.Sampler.Name {
 		return false
 	}
 
